@@ -285,7 +285,7 @@ def run(ctx):
             acc.merge(r)
     cov = {
         "evaluations": acc.n, "distinct_nontrivial": acc.nontrivial,
-        "rule": "%d texts (every string of length <= %s over %r%s, plus %d curated borderline texts) x 6 "
+        "rule": "%d texts (every string of length <= %s over %r%s, plus %d curated borderline texts) x 11 "
                 "grammar/decoder/encoder sets (the five configurations, ISISEncoder's own default pairing, and the five again with grammar and decoder built as separate instances), in both dialect orders, each shard in a fresh process; per text: decoder cascade, 16 token predicates, encoder.encode_string "
                 "and re-decoding of what it wrote; non-trivial = all consistency conditions evaluated and satisfied"
                 % (len(W), "3" if ctx.quick else "4", ALPHA14 if ctx.quick else ALPHA23,
